@@ -1,9 +1,173 @@
 import SR.Drv.Loop
-/-! Driver commands of the UtilObs worker (coverage-gap closing, see DESIGN §13c). -/
+import SR.Drv.C20
+import SR.Util.Extras
+import SR.Util.Rewrite
+/-! Driver commands of the UtilObs worker (coverage-gap closing, see DESIGN §13c).
+
+Model side: `dnx-*` (DenseNatMap: len / default / index / index_mut / into_iter / iter / values / From<Vec>),
+`plan-*` (plans built from dense maps), `hh-*` (hash order of HashableHashSet/Map), `json-*`.
+Oracle side: `o-dnx-*`, `o-plan-*`, `o-hh-*`: the LAWS evaluated on the implementation's own outputs.
+Every other command falls through to the C20 handler (`vc-*`, `dnm-*`), used for `VectorClock::new()`. -/
 namespace SR.Drv.UtilObs
-open SR
+open SR SR.DNM
+
+def natsStr (l : List Nat) : String := toString (SExp.ofNats l)
+def optStr (o : Option Nat) : String := toString (SExp.ofOpt SExp.ofNat o)
+def pairsStr (ps : List (Nat × Nat)) : String := toString (SExp.ofList (SExp.ofPair SExp.ofNat SExp.ofNat) ps)
+
+def op? : SExp → Option Op
+  | .list [.atom "ins", k, v] => do pure (.ins (← k.nat?) (← v.nat?))
+  | .list [.atom "set", k, v] => do pure (.set (← k.nat?) (← v.nat?))
+  | .list [.atom "idx", k] => do pure (.idx (← k.nat?))
+  | .list [.atom "get", k] => do pure (.get (← k.nat?))
+  | .list [.atom "len"] => some .len
+  | _ => none
+
+def obsStr : Obs → String
+  | .prev p => s!"(prev {optStr p})"
+  | .unit => "unit"
+  | .val v => toString v
+  | .opt o => optStr o
+  | .n n => s!"(len {n})"
+
+/-- `panic` or a value -/
+def idx? : SExp → Option (Option Nat)
+  | .atom "panic" => some none
+  | x => x.nat?.map some
+
+def pairs? (s : SExp) : Option (List (Nat × Nat)) := s.listOf? (SExp.pairOf? SExp.nat? SExp.nat?)
+
+def errs (l : List (Bool × String)) : String :=
+  let e := l.filterMap fun (bad, msg) => if bad then some msg else none
+  if e.isEmpty then "ok" else " ".intercalate e
+
+/-- declarative reading of "the stable sorting permutation" (C10_plan_perm + C10_plan_iff) -/
+def isStableSortPlan (vs plan : List Nat) : Bool :=
+  plan.length == vs.length &&
+  (List.range vs.length).all (fun k => plan.count k == 1) &&
+  (List.range vs.length).all fun j => (List.range j).all fun i =>
+    (decide (plan.getD i 0 < plan.getD j 0)) == (decide (vs.getD i 0 ≤ vs.getD j 0))
 
 def handle : Drv.Handler
-  | _, _ => none
+  /- ---------------- DenseNatMap ---------------- -/
+  | "dnx-run", [m, ops] => do
+    let m ← m.nats?; let ops ← ops.listOf? op?
+    let r := run m ops
+    pure s!"({" ".intercalate (r.1.map obsStr)}) {match r.2 with | none => "panic" | some m' => natsStr m'}"
+  | "dnx-view", [m] => do
+    let m ← m.nats?
+    pure s!"{len m} {pairsStr (intoIter m)} {pairsStr (intoIter m)} {natsStr (values m)}"
+  | "dnx-default", [] => pure s!"{len (DNM.default : List Nat)} {natsStr DNM.default}"
+  | "dnx-from-vec", [vs] => do
+    let vs ← vs.nats?
+    pure s!"{len (fromVec vs)} {natsStr (values (fromVec vs))}"
+  -- oracle: the implementation's views of ONE map: `n` = len(), `gets` = get(k) and `idxs` = m[k] (or panic) for
+  -- k = 0..n+2, `into` = into_iter(), `it` = iter(), `vals` = values().
+  -- Laws (C20_dnx_index, C20_dnx_into_iter): get(k) is some iff k < len; m[k] = v iff get(k) = some v, panics iff
+  -- get(k) = none; into_iter / iter yield (k, get k) for k = 0..len-1 in order; values = the same without keys.
+  | "o-dnx-view", [n, gets, idxs, into, it, vals] => do
+    let n ← n.nat?; let gets ← gets.listOf? (SExp.optOf? SExp.nat?); let idxs ← idxs.listOf? idx?
+    let into ← pairs? into; let it ← pairs? it; let vals ← vals.nats?
+    let ks := List.range (n + 3)
+    let expected : List (Nat × Nat) := (List.range n).filterMap fun k => (gets.getD k none).map fun v => (k, v)
+    pure (errs [
+      (gets.length != n + 3 || idxs.length != n + 3, "wrong-probe-count"),
+      (ks.any (fun k => (gets.getD k none).isSome != decide (k < n)), "get-some-iff-key-below-len"),
+      (ks.any (fun k => idxs.getD k none != gets.getD k none), "index-disagrees-with-get"),
+      (expected.length != n, "missing-key"),
+      (into != expected, "into-iter-not-the-pairs-in-key-order"),
+      (it != expected, "iter-not-the-pairs-in-key-order"),
+      (vals != expected.map (·.2), "values-not-the-values-in-key-order")])
+  -- oracle: `m[k] = v` on a map observed before and after through get(j), j = 0..len+2 (C20_dnx_index_mut):
+  -- panics iff k >= len; afterwards get(k) = some v, every other key unchanged (so len unchanged)
+  | "o-dnx-set", [before, k, v, after] => do
+    let before ← before.listOf? (SExp.optOf? SExp.nat?); let k ← k.nat?; let v ← v.nat?
+    let inRange := (before.getD k none).isSome
+    match after with
+    | .atom "panic" => pure (if inRange then "panicked-on-a-valid-key" else "ok")
+    | after => do
+      let after ← after.listOf? (SExp.optOf? SExp.nat?)
+      pure (errs [
+        (!inRange, "no-panic-on-an-invalid-key"),
+        (after.length != before.length, "wrong-probe-count"),
+        (after.getD k none != some v, "does-not-read-back"),
+        ((List.range before.length).any (fun j => j != k && after.getD j none != before.getD j none), "other-key-changed")])
+  /- ---------------- plans ---------------- -/
+  | "plan-from-dnm", [vs] => do
+    let vs ← vs.nats?
+    pure (natsStr (planFromDNM natLe vs))
+  | "plan-rewrite", [plan, k] => do
+    let plan ← plan.nats?; let k ← k.nat?
+    pure (match planRewrite plan k with | none => "panic" | some v => toString v)
+  | "plan-reindex", [plan, xs, mode] => do
+    -- mode "id": the elements are `Id`s (rewritten through the plan); "n": plain numbers (no-op rewrite)
+    let plan ← plan.nats?; let xs ← xs.nats?; let mode ← mode.str?
+    let rw : Nat → Option Nat := if mode == "id" then RW.planFn plan else some
+    pure (match RW.reindexO plan rw xs with | none => "panic" | some ys => natsStr ys)
+  -- oracle: `plan` = state of RewritePlan::from(dense map with values vs), `again` = state of
+  -- RewritePlan::from(that state), `rws` = plan.rewrite(Id(k)) for k = 0..len+1 (or panic).
+  -- Laws: the plan is THE stable sorting permutation of vs (C10_plan_perm / C10_plan_iff); a plan built from its own
+  -- state is the same plan (C10_plan_from_own_state); rewrite(k) = the state's value at k, panic outside (C10_plan_rewrite_get)
+  | "o-plan-from-dnm", [vs, plan, again, rws] => do
+    let vs ← vs.nats?; let plan ← plan.nats?; let again ← again.nats?; let rws ← rws.listOf? idx?
+    pure (errs [
+      (!isStableSortPlan vs plan, "not-the-stable-sorting-permutation"),
+      (again != plan, "plan-of-own-state-differs"),
+      (rws.length != vs.length + 2, "wrong-probe-count"),
+      ((List.range (vs.length + 2)).any (fun k => rws.getD k none != DNM.get plan k), "rewrite-is-not-the-states-value")])
+  -- oracle: reindex on a plan that permutes 0..n-1 (law of C10_reindex): on success the result has the plan's length and
+  -- holds the rewritten element i at position plan[i]; it panics iff the collection is shorter than the plan or (ids) an
+  -- element lies outside the plan
+  | "o-plan-reindex", [plan, xs, mode, ys] => do
+    let plan ← plan.nats?; let xs ← xs.nats?; let mode ← mode.str?
+    let isPerm := (List.range plan.length).all (fun k => plan.count k == 1)
+    if !isPerm then pure "ok" else
+    let rw : Nat → Option Nat := if mode == "id" then (fun x => plan[x]?) else some
+    let mustPanic := (List.range plan.length).any fun i => ((xs[i]?).bind rw).isNone
+    match ys with
+    | .atom "panic" => pure (if mustPanic then "ok" else "panicked-on-a-valid-collection")
+    | ys => do
+      let ys ← ys.nats?
+      pure (errs [
+        (mustPanic, "no-panic"),
+        (ys.length != plan.length, "wrong-length"),
+        ((List.range plan.length).any (fun i => (xs[i]?).bind rw != ys[plan.getD i 0]?), "element-not-at-its-planned-position")])
+  /- ---------------- hash order ---------------- -/
+  | "hh-key", [hs] => do
+    let hs ← hs.nats?
+    pure (toString (HOrd.key hs))
+  | "hh-cmp", [a, b] => do
+    let a ← a.nats?; let b ← b.nats?
+    pure s!"{ordStr (some (HOrd.cmp a b))} {ordStr (HOrd.partialCmp a b)}"
+  | "sip13", [bs] => do
+    let bs ← bs.nats?
+    pure (toString (Sip.defaultHash bs))
+  -- oracle for a pair: `ka`,`kb` = DefaultHasher hashes of the two objects (through their real `Hash` impl);
+  -- implementation outputs cmp(a,b) cmp(b,a) partial_cmp(a,b) partial_cmp(b,a) a==b.
+  -- Laws (C04_hcmp_*): cmp is the order of the keys; partial_cmp = Some(cmp); cmp(b,a) is the reverse; a == b ⇒ Equal.
+  -- (cmp = Equal with a ≠ b is a genuine 64-bit collision: reported by the harness, not a failure.)
+  | "o-hh-pair", [ka, kb, cab, cba, pab, pba, eab] => do
+    let ka ← ka.nat?; let kb ← kb.nat?
+    let cab ← ordOf? cab; let cba ← ordOf? cba; let pab ← ordOf? pab; let pba ← ordOf? pba; let eab ← eab.bool?
+    pure (errs [
+      (cab != some (compare ka kb), "cmp-is-not-the-order-of-the-hashes"),
+      (cba != cab.map Ordering.swap, "cmp-not-antisymmetric"),
+      (pab != cab || pba != cba, "partial-cmp-inconsistent-with-cmp"),
+      (eab && cab != some .eq, "equal-but-not-cmp-equal")])
+  -- oracle for a triple: transitivity of `<=` on implementation outputs
+  | "o-hh-trans", [cab, cbc, cac] => do
+    let cab ← ordOf? cab; let cbc ← ordOf? cbc; let cac ← ordOf? cac
+    let le := fun (o : Option Ordering) => o == some .lt || o == some .eq
+    pure (errs [
+      (le cab && le cbc && !le cac, "transitivity"),
+      (cab == some .eq && cbc == some .eq && cac != some .eq, "equal-not-transitive")])
+  /- ---------------- serde_json text ---------------- -/
+  | "json-set", [xs] => do
+    let xs ← xs.nats?
+    pure (HOrd.jsonSet xs)
+  | "json-map", [ps] => do
+    let ps ← pairs? ps
+    pure (HOrd.jsonMap ps)
+  | c, a => C20.handle c a
 
 end SR.Drv.UtilObs
